@@ -132,15 +132,15 @@ def model_steps(step):
     if op == "send":
         return [["sched", step[1]], ["send", step[1]]]
     if op == "resp":
-        return [["resp", step[1], 1]]
+        return [["resp", step[1], 1], ["cleanall"]]
     if op == "push":
-        return [["push", 1 if step[1] == "ok" else 0]]
+        return [["push", 1 if step[1] == "ok" else 0], ["cleanall"]]
     if op == "closereq":
-        return [["closereq"]]
+        return [["closereq"], ["cleanall"]]
     if op == "cut":
-        return [["cut"]]
+        return [["cut"], ["cleanall"]]
     if op == "reset":
-        return [["reset"]]
+        return [["reset"], ["cleanall"]]
     if op == "cutpause":
         return [["cut"]] + [["clean"]] * step[1]
     if op == "resume":
